@@ -166,6 +166,9 @@ type CRLSpec struct {
 	// IssuerUTF8: the CRL spells its issuer name with UTF8String values (the certificate uses PrintableString): the
 	// same name in another, equally valid encoding.
 	IssuerUTF8 bool
+	// AuthorityKeyID, when set, is the key identifier the CRL names as its authority (by default the issuer's own
+	// subject key identifier): an identifier is a hint, the CRL is whose key signed it.
+	AuthorityKeyID []byte
 }
 
 // MakeCRL builds a DER CRL.
@@ -201,6 +204,11 @@ func MakeCRL(s CRLSpec) []byte {
 	if s.IssuerUTF8 {
 		twin := *s.Issuer
 		twin.RawSubject = NameAsUTF8(s.Issuer.RawSubject)
+		issuer = &twin
+	}
+	if s.AuthorityKeyID != nil {
+		twin := *issuer
+		twin.SubjectKeyId = s.AuthorityKeyID
 		issuer = &twin
 	}
 	der, err := x509.CreateRevocationList(rand.Reader, &x509.RevocationList{
@@ -322,4 +330,27 @@ func WithoutCRLNumber(der []byte, signer *Key) []byte {
 		panic("harness: WithoutCRLNumber: " + err.Error())
 	}
 	return out
+}
+
+// RecyclingGetter answers like the Getter it wraps but hands out every body in ONE receive buffer that it re-uses for
+// the next request (the interface promises nothing about a body once the next Get has been made).
+type RecyclingGetter struct {
+	Inner *Getter
+	buf   []byte
+}
+
+// Get implements trust.HTTPSGetter.
+func (g *RecyclingGetter) Get(u string) (map[string][]string, []byte, error) {
+	h, b, err := g.Inner.Get(u)
+	if err != nil || b == nil {
+		return h, b, err
+	}
+	if g.buf == nil {
+		g.buf = make([]byte, 1<<20)
+	}
+	for i := range g.buf {
+		g.buf[i] = ' '
+	}
+	n := copy(g.buf, b)
+	return h, g.buf[:n:n], nil
 }
